@@ -21,6 +21,7 @@ from .transforms import (
 from .utils import (
     AspireFile,
     _dtype_to_name,
+    convert_dtype,
     function_id,
     load_from_h5_file,
     recursively_save_to_h5_file,
@@ -178,6 +179,10 @@ class Aspire:
             backend=self.flow_backend, flow_matching=self.flow_matching
         )
 
+        # The requested precision may be a dtype object of the sample
+        # namespace; the flow lives in the namespace of its backend
+        flow_dtype = convert_dtype(self.dtype, xp)
+
         data_transform = FlowTransform(
             parameters=self.parameters,
             prior_bounds=self.prior_bounds,
@@ -186,7 +191,7 @@ class Aspire:
             device=self.device,
             xp=xp,
             eps=self.eps,
-            dtype=self.dtype,
+            dtype=flow_dtype,
         )
 
         # Check if FlowClass takes `parameters` as an argument
@@ -200,7 +205,7 @@ class Aspire:
             dims=self.dims,
             device=self.device,
             data_transform=data_transform,
-            dtype=self.dtype,
+            dtype=flow_dtype,
             **self.flow_kwargs,
         )
 
